@@ -9,6 +9,9 @@ util/split_cmdline.cpp, util/string.cpp `Split`), transcribed function by functi
   session, calls `back()` on an empty deque, lets `std::out_of_range` escape, negates `INT_MIN`
   or calls `map::at` with an absent key produce an `Ev.bad` event — an outcome the repaired model
   can only produce in branches that are proved unreachable (`C13_total`).
+* The node tree is a parameter (`ns`) of everything a delivery runs; a command handler that changes it (`Act.rm/mnt/umnt`:
+  `deleteNode`, `mountNode`, `umountNode` called from inside the command) records the new tree in `St.tree`, every later look-up
+  of the same delivery goes through `St.eff`, and `landTree` makes it the World's tree when the delivery has been processed.
 * Every container access of the C++ (`history[i]`, `history.at(i)`, `string::insert/erase/substr`
   at the cursor) is an explicit lookup whose failure is `Ev.bad`.
 * `Ev.exec`, `Ev.stored`, `Ev.sched`, `Ev.tag` and the `TxKind` of a send are ghost information for
@@ -34,10 +37,12 @@ structure Cfg where
   rerunGuard  : Bool   -- 09: a history line that itself is a history command is refused
   cancelEnd   : Bool   -- 10: `~Telnetd::Impl` / `~TcpRpc::Impl` cancel the disconnect tasks that are still queued
   delDefer    : Bool   -- 11: `deleteSession()` of the session whose input is being processed waits until it has been processed
+  treeRoot    : Bool   -- 12: `tree` names a deleted ROOT node `/` instead of calling `back()` on the empty path
+  funcCopy    : Bool   -- 13: `FuncNode::execute` runs a copy of the callback, so a handler may delete its own node
 deriving DecidableEq, Repr
 
-def Cfg.fixed : Cfg := ⟨true, true, true, true, true, true, true, true, true, true, true⟩
-def Cfg.legacy : Cfg := ⟨false, false, false, false, false, false, false, false, false, false, false⟩
+def Cfg.fixed : Cfg := ⟨true, true, true, true, true, true, true, true, true, true, true, true, true⟩
+def Cfg.legacy : Cfg := ⟨false, false, false, false, false, false, false, false, false, false, false, false, false⟩
 
 /-! ## strings -/
 
@@ -224,6 +229,10 @@ inductive Act
   | send (bs : Str) | feed (bs : Str) | endS
   | del       -- `Terminal::deleteSession` of the very session the handler runs in (a handler that holds the Terminal
               -- and the token; `Stdio::stop()` called from a command of the stdio shell)
+  -- handlers that change the node tree while the command line that called them is still being executed:
+  | rm (i : Nat)                        -- `Terminal::deleteNode(nodes[i])` (its own node, its directory, the root, …)
+  | mnt (p c : Nat) (name : Str)        -- `Terminal::mountNode(nodes[p], nodes[c], name)`
+  | umnt (p : Nat) (name : Str)         -- `Terminal::umountNode(nodes[p], name)`
 deriving DecidableEq, Repr
 
 inductive Node
@@ -260,6 +269,27 @@ def findNode (ns : Nodes) (pathStr : Str) (start : Path) : Option Path :=
 def insertSorted (name : Str) (t : Nat) : List (Str × Nat) → List (Str × Nat)
   | [] => [(name, t)]
   | (n, x) :: rest => if strLt name n then (name, t) :: (n, x) :: rest else (n, x) :: insertSorted name t rest
+
+/-- `Terminal::Impl::deleteNode`: the cabinet cell is freed (a token that was never handed out or is already free: nothing) -/
+def rmNode (ns : Nodes) (i : Nat) : Nodes :=
+  match nodeAt ns i with
+  | some _ => ns.set i none
+  | none => ns
+
+/-- `Terminal::Impl::mountNode`: parent a live directory, child live, name not empty, not starting with `!`, not taken -/
+def mountNode (ns : Nodes) (p c : Nat) (name : Str) : Nodes :=
+  match nodeAt ns p, nodeAt ns c with
+  | some (.dir ch), some _ =>
+    if name = [] ∨ name.head? = some 33 then ns
+    else if (ch.lookup name).isSome then ns
+    else ns.set p (some (.dir (insertSorted name c ch)))
+  | _, _ => ns
+
+/-- `Terminal::Impl::umountNode` -/
+def umountNode (ns : Nodes) (p : Nat) (name : Str) : Nodes :=
+  match nodeAt ns p with
+  | some (.dir ch) => if (ch.lookup name).isSome then ns.set p (some (.dir (ch.filter (fun c => c.1 ≠ name)))) else ns
+  | _ => ns
 
 def helpOf (id : Nat) : Str := if id = 0 then rootHelp else helpPrefix ++ decBytes id
 
@@ -301,7 +331,13 @@ structure St where
   hidx : Nat := 0
   opts : Nat := 0
   path : Path := []
+  tree : Option Nodes := none   -- `some t`: a command handler of the delivery that is being processed has changed the Terminal's
+                                -- node tree (`nodes_`, shared by all sessions) to `t`; every later look-up of the same delivery
+                                -- sees `t`; when the delivery has been processed `t` becomes the World's tree (`landTree`)
 deriving DecidableEq, Repr
+
+/-- the node tree a command of session `s` sees, `ns` being the tree when the delivery began -/
+def St.eff (s : St) (ns : Nodes) : Nodes := s.tree.getD ns
 
 def St.echo (s : St) : Bool := s.opts % 2 = 1
 def St.quiet (s : St) : Bool := (s.opts / 2) % 2 = 1
@@ -428,6 +464,12 @@ def pwdCmd (s : St) : Str :=
 
 def lastName (p : Path) : Str := match p.getLast? with | none => [] | some x => x.1
 
+/-- `tree` of the root directory after `deleteNode(rootNode())`: the code as found calls `node_path.back()` on the empty path -/
+def treeRootGone (ns : Nodes) (s : St) (args : List Str) : Bool :=
+  match findNode ns (argOr args dot) s.path with
+  | some np => np = [] && (nodeAt ns 0).isNone
+  | none => false
+
 /-- `executeTreeCmd`; the second component is false when the depth fuel ran out -/
 def treeCmd (ns : Nodes) (s : St) (args : List Str) : Str × Bool :=
   let p := argOr args dot
@@ -435,7 +477,7 @@ def treeCmd (ns : Nodes) (s : St) (args : List Str) : Str × Bool :=
   | none => (errAccess ++ p ++ qDot, true)
   | some np =>
     match nodeAt ns (topOf np) with
-    | none => (lastName np ++ nodeDeleted, true)
+    | none => ((if np = [] then slash else lastName np) ++ nodeDeleted, true)    -- (patch 12: the deleted root is `/`)
     | some (.func _) => (lastName np ++ isAFunction, true)
     | some (.dir ch) =>
       match treeLevel ns (ns.length + 1) [] [] ch with
@@ -450,41 +492,54 @@ def historyCmd (s : St) : Str :=
 abbrev Feed := Option (St → Str → St × List Ev)
 
 /-- a handler's script, run on the session as it is at that moment — in the middle of `execute()` -/
-def runScript (feed : Feed) : St → List Act → St × List Ev
+def runScript (ns : Nodes) (feed : Feed) : St → List Act → St × List Ev
   | s, [] => (s, [])
   | s, .send bs :: r =>
-    let y := runScript feed s r
+    let y := runScript ns feed s r
     (y.1, .tx .out bs :: y.2)
   | s, .feed bs :: r =>
     (match feed with
      | some f =>
        let x := f s bs
-       let y := runScript feed x.1 r
+       let y := runScript ns feed x.1 r
        (y.1, .tag "nested-feed" :: (x.2 ++ y.2))
-     | none => runScript feed s r)
+     | none => runScript ns feed s r)
   | s, .endS :: r =>
-    let y := runScript feed s r
+    let y := runScript ns feed s r
     (y.1, .endSess :: y.2)
   | s, .del :: r =>
     -- (patch 11) the session stays as it is until its input has been processed: the rest of the script, the rest of
     -- the command line and of the segment run on a live session; `finishSlot` carries the deletion out
-    let y := runScript feed s r
+    let y := runScript ns feed s r
     (y.1, .delS :: y.2)
+  -- the tree changes at once (`nodes_` of the Terminal); the rest of the script, of the command line and of the segment see it
+  | s, .rm i :: r =>
+    let y := runScript ns feed { s with tree := some (rmNode (s.eff ns) i) } r
+    (y.1, .tag "h-rm" :: y.2)
+  | s, .mnt p c name :: r =>
+    let y := runScript ns feed { s with tree := some (mountNode (s.eff ns) p c name) } r
+    (y.1, .tag "h-mount" :: y.2)
+  | s, .umnt p name :: r =>
+    let y := runScript ns feed { s with tree := some (umountNode (s.eff ns) p name) } r
+    (y.1, .tag "h-umount" :: y.2)
 
 /-- the harness's handler: the script runs only while the nesting budget lasts -/
-def runHandler (feed : Feed) (s : St) (script : List Act) : St × List Ev :=
-  if feed.isSome then runScript feed s script else (s, [])
+def runHandler (ns : Nodes) (feed : Feed) (s : St) (script : List Act) : St × List Ev :=
+  if feed.isSome then runScript ns feed s script else (s, [])
 
 /-- `executeUserCmd`: the session afterwards and the events -/
-def userCmd (ns : Nodes) (feed : Feed) (s : St) (args : List Str) (cmd : Str) : St × List Ev :=
+def userCmd (cfg : Cfg) (ns : Nodes) (feed : Feed) (s : St) (args : List Str) (cmd : Str) : St × List Ev :=
   match findNode ns cmd s.path with
   | none => (s, [.tx .out (errQ ++ cmd ++ qNotFound)])
   | some np =>
     match nodeAt ns (topOf np) with
     | none => (s, [.tx .out (errQ ++ cmd ++ qDeleted)])
     | some (.func script) =>
-      let r := runHandler feed s script
-      (r.1, .probe (topOf np) args :: (r.2 ++ [.tx .out (60 :: decBytes (topOf np) ++ 62 :: crlf)]))
+      let r := runHandler ns feed s script
+      -- (patch 13) the callback that is running is a copy: the handler may have deleted the node it belongs to; in the code
+      -- as found the `std::function` inside the deleted FuncNode is destroyed while it runs (its captures are freed)
+      let gone : List Ev := if !cfg.funcCopy && (nodeAt (r.1.eff ns) (topOf np)).isNone then [.bad .useAfterFree] else []
+      (r.1, .probe (topOf np) args :: (r.2 ++ (gone ++ [.tx .out (60 :: decBytes (topOf np) ++ 62 :: crlf)])))
     | some (.dir _) => ({ s with path := np }, [])
 
 /-- what a history reference resolves to -/
@@ -533,7 +588,8 @@ def runHistory (cfg : Cfg) (inner : St → ExecRes) (rerun : Bool) (s : St) (arg
       let r := inner { s with line := l, cursor := if cfg.cursorReset then l.length else s.cursor }
       (r.1, .tag tag :: ((if echo then [.tx .out (l ++ crlf)] else []) ++ r.2.1), r.2.2)
 
-def executeCmd (cfg : Cfg) (ns : Nodes) (feed : Feed) (inner : St → ExecRes) (rerun : Bool) (s : St) (cmdline : Str) : ExecRes :=
+def executeCmd (cfg : Cfg) (ns0 : Nodes) (feed : Feed) (inner : St → ExecRes) (rerun : Bool) (s : St) (cmdline : Str) : ExecRes :=
+  let ns := s.eff ns0       -- the tree as the handlers run so far in this delivery have left it
   if cmdline = [] then (s, [.tag "seg-empty"], false)
   else
     match splitCmdline cmdline with
@@ -552,10 +608,11 @@ def executeCmd (cfg : Cfg) (ns : Nodes) (feed : Feed) (inner : St → ExecRes) (
         (s, [.tag "cmd-exit"] ++ (if s.quiet then [] else [.tx .out bye]) ++ [.sched], true)
       else if cmd = cmdTree then
         let r := treeCmd ns s args
-        if r.2 then (s, [.tag "cmd-tree", .tx .out r.1], true) else (s, [.bad .recursion], true)
+        if !cfg.treeRoot && treeRootGone ns s args then (s, [.bad .emptyBack], true)
+        else if r.2 then (s, [.tag "cmd-tree", .tx .out r.1], true) else (s, [.bad .recursion], true)
       else if cmd.head? = some 33 then runHistory cfg inner rerun s cmd
       else
-        let r := userCmd ns feed s args cmd
+        let r := userCmd cfg ns feed s args cmd
         (r.1, .tag "cmd-user" :: r.2, true)
 
 /-- the loop of `execute()` over the `;`-separated command lines (stops at the first `false`) -/
@@ -905,6 +962,12 @@ def finishSlot (cfg : Cfg) (w : World) (k : Nat) (x : Slot) (s' : Option St) (ev
     ({ w.setSlot k { x with sess := s'', ending := x.ending || ended } with exits := exits', frontEnd := w.frontEnd || ended },
      .slot k :: out.filter (fun e => !isEndSess e))
 
+/-- the delivery has been processed: the tree its handlers left behind is the Terminal's tree -/
+def landTree (w : World) (s' : Option St) : World :=
+  match s' with
+  | some s => { w with nodes := s.eff w.nodes }
+  | none => w
+
 /-- bytes for the session of slot `k` (already framed) -/
 def deliver (cfg : Cfg) (w : World) (k : Nat) (bs : Str) : World × List Ev :=
   let x := w.slot k
@@ -912,7 +975,7 @@ def deliver (cfg : Cfg) (w : World) (k : Nat) (bs : Str) : World × List Ev :=
   | none => (w, [])
   | some s =>
     let r := recvStringD cfg w.nodes w.depth s bs
-    finishSlot cfg w k x (some r.1) r.2
+    finishSlot cfg (landTree w (some r.1)) k x (some { r.1 with tree := none }) r.2
 
 /-- what the client of slot `k` gets to see of these events: nothing that was sent while its socket refuses
 every write (`BufferedFd::send` logs the error and drops the data) or after it closed its end -/
@@ -933,7 +996,7 @@ def recvSlot (cfg : Cfg) (w : World) (k : Nat) (bs : Str) : World × List Ev :=
     let opts0 := match x.sess with | some s => s.opts | none => 0
     let f := telFeed cfg opts0 x.pending bs
     let a := applyTel cfg w.nodes w.depth x.sess f.1
-    let r := finishSlot cfg w k { x with pending := f.2.2 } a.1 a.2
+    let r := finishSlot cfg (landTree w a.1) k { x with pending := f.2.2 } (a.1.map fun s => { s with tree := none }) a.2
     (r.1, heard w k r.2 ++ opLine ("rest=" ++ toString f.2.2.length))
 
 /-! ### the socket read path (`BufferedFd::onReadCallback` on the service's end of a client's socket)
@@ -1165,7 +1228,7 @@ def step (cfg : Cfg) (w : World) : Op → Option (World × List Ev)
       | _ => some (w, retLine false)
     else none
   | .rmnode i =>
-    if i < w.nodes.length ∧ i ≠ 0 then
+    if i < w.nodes.length then
       match nodeAt w.nodes i with
       | some _ => some ({ w with nodes := w.nodes.set i none }, retLine true)
       | none => some (w, retLine false)
